@@ -861,6 +861,14 @@ pub async fn run_case(backend: &str, seed: u64, rep: &mut Report, ops: &mut Vec<
                 if vault.verify(other).await.is_ok() { cx.fail("c10-foreign-password-verifies", &format!("folder {fid}: Vault::verify accepts a password that is not the folder's own")); }
                 let mut k = AccessPoint::from_vault(vault.clone());
                 if k.unlock(other).await.is_ok() { cx.fail("c10-foreign-password-unlocks", &format!("folder {fid}: unlocked with a password that is not its own")); }
+                else {
+                    // a refused unlock leaves the folder locked: nothing can be written (a row written now would be
+                    // sealed under a key that is not the folder's)
+                    use sos_vault::SecretAccess;
+                    let (m, sct) = note_secret("after-refused-unlock");
+                    let row = sos_vault::secret::SecretRow::new(SecretId::new_v4(), m, sct);
+                    if k.create_secret(&row).await.is_ok() { cx.fail("c10-folder-usable-after-refused-unlock", &format!("folder {fid}: after unlock with a foreign password was refused a secret could still be written (sealed under the foreign key)")); }
+                }
             }
         }
     }
@@ -868,6 +876,11 @@ pub async fn run_case(backend: &str, seed: u64, rep: &mut Report, ops: &mut Vec<
     cx.rep.case(&s, true);
     if seed % 40 == 0 { let sc = cx.script.clone(); cx.rep.sample(json!({"script": sc})); }
     Ok(())
+}
+
+fn note_secret(label: &str) -> (SecretMeta, Secret) {
+    let secret = Secret::Note { text: "x".to_string().into(), user_data: Default::default() };
+    (SecretMeta::new(label.to_string(), secret.kind()), secret)
 }
 
 async fn w_sync(w: &World, k: usize) -> Result<String, String> { w.sync(k).await }
